@@ -228,6 +228,13 @@ def _tmpl_d(delims):
 
 
 def real_tokens_d(delims, src):
+    try:
+        return _real_tokens_d(delims, src)
+    except Exception as e:  # noqa  (the expressions for these delimiters do not compile / have other groups)
+        return ['err', type(e).__name__]
+
+
+def _real_tokens_d(delims, src):
     t = _tmpl_d(delims)
     out, offset = [], 0
     for mo in t._directive_re.finditer(src):
@@ -245,7 +252,10 @@ def real_tokens_d(delims, src):
 
 
 def real_parse_d(delims, src):
-    t = _tmpl_d(delims)
+    try:
+        t = _tmpl_d(delims)
+    except Exception as e:  # noqa
+        return ['err', type(e).__name__]
     try:
         with warnings.catch_warnings():
             warnings.simplefilter('ignore')
@@ -270,6 +280,8 @@ def model_answers_d(cases):
         evs = _evs(parsed[1] if str(parsed[0]) == 'ok' else parsed[2])
         if str(parsed[0]) == 'err' and str(parsed[1]) == 'unmodelled':
             res.append((toks, None))
+        elif any(_beyond_codegen(s, m) for m, s in _sources(evs, [])):
+            res.append((toks, None))
         elif any(not _compiles(s, m) for m, s in _sources(evs, [])):
             res.append((toks, ['err', 'badsyntax']))
         elif str(parsed[0]) == 'ok':
@@ -290,6 +302,17 @@ def _compiles(src, mode):
         return True
     except (SyntaxError, ValueError):
         return False
+
+
+def _beyond_codegen(src, mode):
+    """Python the code generator of genshi.template.astutil does not handle (set literals, which the
+    delimiters `{{ }}` produce as `${{ x }}`: 'Unhandled node type Set' — C13's subject, not the scanner's)"""
+    import ast
+    try:
+        tree = ast.parse(src.strip(), mode=mode)
+    except (SyntaxError, ValueError):
+        return False
+    return any(isinstance(n, (ast.Set, ast.SetComp, ast.DictComp, ast.NamedExpr, ast.JoinedStr)) for n in ast.walk(tree))
 
 
 def _sources(evs, out):
